@@ -435,7 +435,7 @@ def spec_strategy():
 
 
 def units(tier, seed):
-    n = 16 if tier == 'quick' else 32
+    n = 16          # quick: a sample of 45 boundaries per spec; thorough: every boundary of 16 other specs (~25 min)
     per = 1
     return [{'kind': 'enumerate', 'nspecs': per, 'seed': core.shard_seed(seed, ID, i),
              'max_boundaries': 45 if tier == 'quick' else None, 'nkills': 4 if tier == 'quick' else 6} for i in range(n)]
